@@ -76,7 +76,7 @@ class ProgGen:
             return self.const()
         choices = ["const", "var", "progn", "let", "let*", "setq", "set", "if", "cond", "when", "unless", "and", "or",
                    "not", "xor", "num", "list", "cmp", "eq"]
-        if self.loops: choices += ["while", "dolist", "dotimes"]
+        if self.loops: choices += ["while", "dolist", "dotimes", "keep"]
         if self.use_funcs and self.funcs: choices += ["call", "call", "funcall"]
         if self.closures: choices += ["lambda", "eval"]
         k = r.choice(choices)
@@ -96,6 +96,11 @@ class ProgGen:
                 else: bs.append("(%s %s)" % (v, self.expr(d1)))
             return "(%s (%s) %s)" % (k, " ".join(bs), self.body(d1))
         if k == "setq": return "(setq %s %s)" % (self.var(), self.expr(d1))
+        if k == "keep":
+            # keep the current value of a variable in another one / in a list (shows whether loop variables are values)
+            v, w = self.var(), self.var()
+            return r.choice(["(setq %s (cons %s (if (consp %s) %s nil)))" % (v, w, v, v), "(setq %s %s)" % (v, w),
+                             "(setq %s (list %s %s))" % (v, w, v)])
         if k == "set": return "(set '%s %s)" % (self.var(), self.expr(d1))
         if k == "if":
             return "(if %s %s%s)" % (self.expr(d1), self.expr(d1), "" if r.random() < 0.2 else " " + self.body(d1, r.choice([1, 1, 2])))
